@@ -92,7 +92,28 @@ func vCanon(s *Server) vMetaState {
 			sort.Strings(reps)
 			p.mu.RLock()
 			waiting := p.recovered && !p.paused // deferred start that has not happened
+			// the live view (maps, flags) and the view a snapshot would carry
+			// (the embedded protobuf) describe the same partition
+			var liveISR, liveReps []string
+			for id := range p.isr {
+				liveISR = append(liveISR, id)
+			}
+			for id := range p.replicas {
+				liveReps = append(liveReps, id)
+			}
+			sort.Strings(liveISR)
+			sort.Strings(liveReps)
+			protoISR := append([]string{}, p.Partition.Isr...)
+			protoReps := append([]string{}, p.Partition.Replicas...)
+			sort.Strings(protoISR)
+			sort.Strings(protoReps)
+			livePaused, protoPaused := p.paused, p.Partition.Paused
 			p.mu.RUnlock()
+			vAssert(strings.Join(liveISR, ",") == strings.Join(protoISR, ","), "the in-sync set a snapshot would carry is the live in-sync set")
+			vAssert(strings.Join(liveReps, ",") == strings.Join(protoReps, ","), "the replica list a snapshot would carry is the live replica set")
+			vAssert(livePaused == protoPaused, "the paused flag a snapshot would carry is the live paused flag")
+			vAssert(strings.Join(liveISR, ",") == strings.Join(isr, ","), "GetISR reports the live in-sync set")
+			vAssert(strings.Join(liveReps, ",") == strings.Join(reps, ","), "GetReplicas reports the live replica set")
 			out.parts = append(out.parts, vPartState{key: fmt.Sprintf("%s/%d", st.GetName(), p.Id), leader: leader, leaderEpoch: lepoch,
 				epoch: p.GetEpoch(), isr: strings.Join(isr, ","), replicas: strings.Join(reps, ","),
 				paused: p.IsPaused(), readonly: p.IsReadonly(), waiting: waiting})
